@@ -102,7 +102,7 @@ theorem detectOK_prefix (tp rest : List Piece) (hn : noFields tp = true) (hr : d
     have := ih (by simpa [noFields] using hn.2)
     cases p with
     | field n s => simp [Piece.isField] at hn
-    | _ => simpa [detectOK] using this
+    | _ => simpa [detectOK, detOK] using this
 
 theorem procOK_logj (tp : List Piece) (hn : noFields tp = true) (xs : List Str) : procOK (logjPieces tp xs) = true := by
   cases xs with
